@@ -3,6 +3,7 @@ import GV.DriverExt
 import GV.EngineDriver
 import GV.ClientDriver
 import GV.AwsDriver
+import GV.DrvDriver
 open GV
 
 structure Full where
@@ -18,6 +19,8 @@ def dispatchAll (st : Full) (line : String) : Full × String :=
   else if verb.startsWith "cli." then
     let (c', r) := cliDispatch st.cli verb head payload
     ({ st with cli := c' }, r)
+  else if verb.startsWith "ws." || verb.startsWith "wl." || verb.startsWith "slot." then
+    (st, drvDispatch verb head)
   else if verb.startsWith "aws." then
     (st, awsDispatch verb head payload)
   else
